@@ -275,6 +275,19 @@ func c16Run(r *core.Run) {
 		"opt.QeVendorID": poisoned(q.QEVendor[:], 8), "opt.Rtmr0": poisoned(q.Rtmr[0][:], 8), "opt.Rtmr1": poisoned(q.Rtmr[1][:], 8),
 		"opt.Rtmr2": poisoned(q.Rtmr[2][:], 8), "opt.Rtmr3": poisoned(q.Rtmr[3][:], 8), "opt.MrTd": poisoned(q.MrTd[:], 8), "opt.Xfam": poisoned(q.Xfam[:], 8),
 	}
+	// in a quarter of the runs some expectations are shorter than the field they speak of (sub-slices of a larger
+	// caller buffer: spare capacity right behind them).  Whatever the validator makes of such an option —
+	// today it refuses it — the bytes behind it are not its to write.
+	if t.Chance(1, 4) {
+		optBytes["opt.ReportData"] = poisoned(q.ReportData[:8+t.Draw(56)], 64)
+		if t.Bool() {
+			optBytes["opt.Xfam"] = poisoned(q.Xfam[:1+t.Draw(7)], 16)
+		}
+		if t.Bool() {
+			optBytes["opt.MrSeam"] = poisoned(q.MrSeam[:1+t.Draw(47)], 48)
+		}
+		r.Probe("option_shorter_than_its_field")
+	}
 	// the allow-list and the RTMR list are the callers' too (one list shared by all tasks' options values): the
 	// quote's MR_TD sits between a larger and a smaller decoy, i.e. the list is in no particular order
 	optBytes["opt.AnyMrTd.hi"], optBytes["opt.AnyMrTd.lo"] = poisoned(bytesOf(0xfe, 48), 8), poisoned(bytesOf(0x01, 48), 8)
